@@ -6,7 +6,7 @@
    setter and re-arms).  On the unrepaired code both statements are false (nested silent()
    blocks; reset after a completion): see notes/C19.md for the failing histories. *)
 From Coq Require Import ZArith List Lia Bool Sorted.
-From PV Require Import C19.Model C19.Spec C19.Proofs C19.Proofs2.
+From PV Require Import C19.Model C19.Spec C19.Proofs C19.Proofs2 C19.Proofs3.
 Import ListNotations.
 Open Scope Z_scope.
 
@@ -141,3 +141,81 @@ Example C19_ex_progress :
   [[]; [EvProgress 1 1; EvComplete]; [EvProgress 1 1]; []; [EvProgress 1 1; EvComplete]; [];
    [EvProgress 3 3; EvComplete]].
 Proof. vm_compute. reflexivity. Qed.
+
+(* =============================================================================================
+   Stage 3.  Silencing for ALL well-bracketed histories: set_silent may be called inside silent()
+   blocks (the restriction of C19_dispatch is not needed any more).  [silenced_all] is defined on
+   the history alone (Spec.v): closed silent() blocks are skipped with everything they contain;
+   of what remains the most recent of set_silent(b) / entering a still-open block decides.
+   This is what the repaired silent() does: it saves the flag, sets it, and restores the saved
+   value on exit, so a set_silent inside the block holds until the block is left. *)
+Theorem C19_dispatch_all : forall (Arg Res : Type) (beh : func -> Z -> Arg -> Res)
+    (p : list (op Arg)) (ev snd : Z) (a : Arg) (single : option bool) (rest : list (op Arg)),
+  brackets_ok p = true ->
+  nth_error (outs beh init (p ++ Emit ev snd a single :: rest)) (length p) =
+  Some (spec_emit_all beh p ev snd a single).
+Proof. exact dispatch_all. Qed.
+Print Assumptions C19_dispatch_all.
+
+(* the state of the emitter after any well-bracketed history, read off the history: the registry,
+   the flag, the number of open silent() blocks *)
+Theorem C19_state_after : forall (Arg Res : Type) (beh : func -> Z -> Arg -> Res) (p : list (op Arg)),
+  brackets_ok p = true ->
+  cbs (exec beh init p) = registered p /\ flag (exec beh init p) = silenced_all p /\
+  length (saved (exec beh init p)) = (length (filter is_enter p) - length (filter is_exit p))%nat.
+Proof. exact state_after. Qed.
+Print Assumptions C19_state_after.
+
+(* inside the first reading the two notions of "silenced" coincide, so C19_dispatch_all contains
+   C19_dispatch *)
+Theorem C19_silenced_agree : forall (Arg Res : Type) (beh : func -> Z -> Arg -> Res)
+    (p : list (op Arg)) (ev snd : Z) (a : Arg) (single : option bool),
+  silent_ok p = true ->
+  brackets_ok p = true /\ silenced_all p = silenced p /\
+  spec_emit_all beh p ev snd a single = spec_emit beh p ev snd a single.
+Proof. exact silenced_agree_full. Qed.
+Print Assumptions C19_silenced_agree.
+
+(* what [silenced_all] means, without the scan: not silenced initially; set_silent(b) makes it b;
+   entering a block silences; other operations change nothing; and a completed `with silent():`
+   block -- with ANY balanced body, set_silent calls included -- leaves silencing as it was *)
+Theorem C19_silenced_all_meaning : forall (Arg : Type),
+  silenced_all (@nil (op Arg)) = false /\
+  (forall (p : list (op Arg)) b, silenced_all (p ++ [SetSilent b]) = b) /\
+  (forall p : list (op Arg), silenced_all (p ++ [SilentEnter]) = true) /\
+  (forall (p : list (op Arg)) o, is_flag_op o = false -> silenced_all (p ++ [o]) = silenced_all p) /\
+  (forall (p b : list (op Arg)), balanced b ->
+     silenced_all (p ++ SilentEnter :: b ++ [SilentExit]) = silenced_all p).
+Proof. exact silenced_all_equations. Qed.
+Print Assumptions C19_silenced_all_meaning.
+
+(* ... and these five equations determine it on every well-bracketed history *)
+Theorem C19_silenced_all_unique : forall (Arg : Type) (S' : list (op Arg) -> bool),
+  S' [] = false ->
+  (forall p b, S' (p ++ [SetSilent b]) = b) ->
+  (forall p, S' (p ++ [SilentEnter]) = true) ->
+  (forall p o, is_flag_op o = false -> S' (p ++ [o]) = S' p) ->
+  (forall p b, balanced b -> S' (p ++ SilentEnter :: b ++ [SilentExit]) = S' p) ->
+  forall p, brackets_ok p = true -> S' p = silenced_all p.
+Proof. exact silenced_all_unique. Qed.
+Print Assumptions C19_silenced_all_unique.
+
+(* non-vacuity: set_silent inside blocks; the witness of C19_dispatch_needs_reading is now covered *)
+Definition ex_hist3 : list (op Z) :=
+  [Connect f0 ByName None false; SetSilent true; SilentEnter; SetSilent false].
+Example C19_ex3_regime : brackets_ok (ex_hist3 ++ [SilentExit]) = true /\ silent_ok ex_hist3 = false.
+Proof. vm_compute. split; reflexivity. Qed.
+Example C19_ex3_inside :     (* set_silent(False) inside the block: callbacks are called *)
+  nth_error (outs (fun f _ x => fn_id f + x) init (ex_hist3 ++ [Emit 0 1 7 None])) (length ex_hist3) =
+  Some (OEmit [mkcall f0 1 7] (RList [7])) /\
+  spec_emit_all (fun f _ x => fn_id f + x) ex_hist3 0 1 7 None = OEmit [mkcall f0 1 7] (RList [7]).
+Proof. vm_compute. split; reflexivity. Qed.
+Example C19_ex3_after :      (* leaving the block restores set_silent(True) *)
+  spec_emit_all (fun f _ x => fn_id f + x) (ex_hist3 ++ [SilentExit]) 0 1 7 None = OEmit [] RNone /\
+  balanced [@SetSilent Z false; SilentEnter; SetSilent true; SilentExit].
+Proof.
+  split; [vm_compute; reflexivity|].
+  apply bal_other; [reflexivity|reflexivity|]. apply (bal_block Z [SetSilent true] []).
+  - apply bal_other; [reflexivity|reflexivity|constructor].
+  - constructor.
+Qed.
